@@ -1,5 +1,6 @@
 (* C14: every error a parse of a source text reports -- collected or raised at once -- lies within the document:
    at one of its physical lines, or (end of file) one line past the last. *)
+From Coq Require Import String.
 From Coq Require Import List Bool Arith Lia.
 Import ListNotations.
 Require Import Kinds PyStr Line Matcher MatcherFacts Ast Builder BuilderSafe Automaton AutoFacts Pipeline PipelineFacts Dialects Table
@@ -160,4 +161,45 @@ Proof.
   - destruct (builder_result (bs c)); exact I.
   - apply (Fin c e Dl E).
   - destruct Dl as [Pre _]. eapply Forall_impl; [|exact E]. intros e He. apply (Fin c e Pre He).
+Qed.
+
+(* ---- the four faults: what an error can be ---- *)
+Definition fault (e : perror) : Prop :=
+  (e_kind e = ETag /\ exists l, e_msg e = loc_prefix l ++ s2l "A tag may not contain whitespace"%string)
+  \/ (e_kind e = ENoSuchLanguage /\ exists l name, e_msg e = loc_prefix l ++ s2l "Language not supported: "%string ++ name)
+  \/ (e_kind e = EAstBuilder /\ exists l, e_msg e = loc_prefix l ++ s2l "inconsistent cell count within the table"%string).
+
+Lemma fault_matcher k m t : match matcher dialects k m t with MErr e _ _ => fault e | _ => True end.
+Proof.
+  unfold matcher. destruct k; destruct (tk_line t) as [l|]; try exact I;
+    unfold match_title_line, match_docsep; matcher_cases; try exact I; unfold fault, parser_exception; cbn [e_kind e_msg].
+  - left. split; [reflexivity|]. eauto.
+  - right. left. split; [reflexivity|]. eauto.
+Qed.
+Lemma fault_builder_end r b : match builder_end r b with BoRaise e _ => fault e | _ => True end.
+Proof.
+  unfold builder_end. destruct (b_stack b) as [|n stk]; [exact I|].
+  destruct (transform_node n (b_comments b) (b_idc b)) as [v i|e i|] eqn:T; [destruct stk; exact I| |exact I].
+  apply transform_raise in T. unfold get_table_rows in T. destruct (get_tokens n KTableRow); [|discriminate].
+  destruct (rows_of_tokens l (b_idc b)) as [rows j]. destruct (first_ragged rows); [|discriminate]. inversion T; subst.
+  right. right. unfold parser_exception. cbn. split; [reflexivity | eauto].
+Qed.
+
+Theorem error_origins stop m b src :
+  let ok (c : pctx) e := fault e \/ exists t s exp, In (EvX t s) (log c) /\ e = unexpected t exp in
+  match parse_tokens stop (scan src) m b with
+  | Raise1 e c => ok c e
+  | RaiseC es c => Forall (ok c) es
+  | _ => True
+  end.
+Proof.
+  intros ok. unfold parse_tokens, parse_tokens_with.
+  pose proof (parse_errors rP (fun _ => True) fault (fun _ => True) (fun _ => I)) as E.
+  specialize (E (fun k m0 t _ => ltac:(cbn [matchf pipeline_params]; unfold p_matchf; pose proof (fault_matcher k m0 t) as F; destruct (matcher dialects k m0 t); auto))).
+  specialize (E (fun r b0 _ => ltac:(cbn; exact I))).
+  specialize (E (fun r b0 _ => ltac:(cbn [b_end pipeline_params]; unfold p_bend; pose proof (fault_builder_end r b0) as F; destruct (builder_end r b0); cbn; auto))).
+  specialize (E (fun t b0 _ _ => ltac:(cbn [b_build pipeline_params]; unfold p_bbuild, builder_build; destruct (m_type t) as [kd|]; [|exact I];
+                                       destruct kd; try (destruct (b_stack b0); exact I); destruct (m_text t); exact I))).
+  assert (Ft : Forall (fun _ : token => True) (scan src)) by (apply Forall_forall; intros; exact I).
+  exact (E stop (scan src) (reset_matcher dialects m) (reset_builder b) Ft I).
 Qed.
